@@ -1164,6 +1164,18 @@ ExpressionEvaluator::evaluate_typed_expression_internal(const ASTNode *node) {
                     if (var->is_multidimensional && indices.size() > 1) {
                         // 多次元配列のフラットインデックスを計算（row-major
                         // order）
+                        // every index must lie inside its own dimension (the
+                        // flat range check below cannot see d[0][3] on
+                        // double[2][3], which is the cell d[1][0])
+                        for (size_t d = 0; d < indices.size() &&
+                                           d < var->array_dimensions.size();
+                             d++) {
+                            if (indices[d] < 0 ||
+                                indices[d] >= var->array_dimensions[d]) {
+                                throw std::runtime_error(
+                                    "Array index out of bounds");
+                            }
+                        }
                         int flat_index = 0;
                         int multiplier = 1;
                         for (int d = indices.size() - 1; d >= 0; d--) {
